@@ -576,11 +576,16 @@ func runC12(c *Ctx, body json.RawMessage) *Verdict {
 		if opt != "" {
 			dsn += "?" + opt
 		}
+		invalidOpt := strings.Contains(opt, "lrucachesize=abc")
 		db, err := sql.Open("updog", dsn)
+		if err != nil && invalidOpt {
+			// an invalid option value has to be refused; whether by sql.Open or by the first use is the driver's choice
+			v.Count("invalid_dsn_refused_by_sql_open", 1)
+			continue
+		}
 		if err != nil {
 			return v.Violate("open-error", "sql.Open(%q): %v", dsn, err)
 		}
-		invalidOpt := strings.Contains(opt, "lrucachesize=abc")
 		if cs.Overlap && !invalidOpt {
 			for qi := 0; qi+1 < len(cs.Queries); qi += 2 {
 				o1, o2 := runOverlapped(db, cs.Queries[qi], cs.Queries[qi+1])
